@@ -738,10 +738,13 @@ pub fn write_substore_docs(sub: &std::path::Path, i: usize) -> std::path::PathBu
     let sub_has_id = i % 3 != 0;
     let nsub = 1 + i % 2;
     let ann = |id: &str, res: &str, b: usize, e: usize, val: &str| format!("{{\"@type\": \"Annotation\", \"@id\": \"{}\", \"target\": {{\"@type\": \"TextSelector\", \"resource\": \"{}\", \"offset\": {{\"@type\": \"Offset\", \"begin\": {{\"@type\": \"BeginAlignedCursor\", \"value\": {}}}, \"end\": {{\"@type\": \"BeginAlignedCursor\", \"value\": {}}}}}}}, \"data\": [{{\"@type\": \"AnnotationData\", \"set\": \"set-{}\", \"key\": \"k\", \"value\": {{\"@type\": \"String\", \"value\": \"{}\"}}}}]}}", id, res, b, e, res, val);
-    let doc = |id: Option<&str>, includes: &[String], tag: &str| format!("{{\"@type\": \"AnnotationStore\"{}{}, \"resources\": [{{\"@type\": \"TextResource\", \"@id\": \"{}\", \"text\": \"hello w\u{f6}rld {}\"}}], \"annotationsets\": [{{\"@type\": \"AnnotationDataSet\", \"@id\": \"set-{}\", \"keys\": [{{\"@type\": \"DataKey\", \"@id\": \"k\"}}], \"data\": []}}], \"annotations\": [{}, {}]}}",
+    // (the root document names its sub-stores before its own items, or - every fourth case - after them: the root's own
+    // items then have the lower handles)
+    let include_last = i % 4 == 3;
+    let doc = |id: Option<&str>, includes: &[String], tag: &str| { let inc = if includes.is_empty() { String::new() } else { format!(", \"@include\": [{}]", includes.iter().map(|x| format!("\"{}\"", x)).collect::<Vec<_>>().join(", ")) }; format!("{{\"@type\": \"AnnotationStore\"{}{}, \"resources\": [{{\"@type\": \"TextResource\", \"@id\": \"{}\", \"text\": \"hello w\u{f6}rld {}\"}}], \"annotationsets\": [{{\"@type\": \"AnnotationDataSet\", \"@id\": \"set-{}\", \"keys\": [{{\"@type\": \"DataKey\", \"@id\": \"k\"}}], \"data\": []}}], \"annotations\": [{}, {}]{}}}",
         id.map(|x| format!(", \"@id\": \"{}\"", x)).unwrap_or_default(),
-        if includes.is_empty() { String::new() } else { format!(", \"@include\": [{}]", includes.iter().map(|x| format!("\"{}\"", x)).collect::<Vec<_>>().join(", ")) },
-        tag, tag, tag, ann(&format!("{}-a0", tag), tag, 0, 5, "x"), ann(&format!("{}-a1", tag), tag, 6, 11, "y"));
+        if include_last { String::new() } else { inc.clone() },
+        tag, tag, tag, ann(&format!("{}-a0", tag), tag, 0, 5, "x"), ann(&format!("{}-a1", tag), tag, 6, 11, "y"), if include_last { inc } else { String::new() }) };
     let subnames: Vec<String> = (0..nsub).map(|k| format!("sub{}.store.stam.json", k)).collect();
     for (k, n) in subnames.iter().enumerate() {
         let sid = format!("the-substore-{}", k);
@@ -752,9 +755,6 @@ pub fn write_substore_docs(sub: &std::path::Path, i: usize) -> std::path::PathBu
     rootpath
 }
 
-/// two STAM JSON documents over the same resource and the same dataset identifier, the second merged into the store
-/// loaded from the first (`from_file(a)?.with_file(b)`): the store must hold what both files say — every key, every
-/// data item with its value, every annotation with its data (referred to by id across the files) and its text
 /// a public identifier in the shape of a temporary one (`!A8`, `!D5`): the API accepts it and (since the fix recorded for C03)
 /// finds the item by it; the serialisation formats reserve that shape for temporary identifiers
 fn check_temp_shaped_public_ids(rep: &mut Report, property: Option<&str>, dir: &std::path::Path) {
@@ -793,6 +793,9 @@ fn check_temp_shaped_public_ids(rep: &mut Report, property: Option<&str>, dir: &
     }
 }
 
+/// two STAM JSON documents over the same resource and the same dataset identifier, the second merged into the store
+/// loaded from the first (`from_file(a)?.with_file(b)`): the store must hold what both files say — every key, every
+/// data item with its value, every annotation with its data (referred to by id across the files) and its text
 fn check_merge(rep: &mut Report, dir: &std::path::Path, i: usize) {
     let sub = dir.join(format!("mg{}", i));
     std::fs::create_dir_all(&sub).ok();
@@ -892,7 +895,14 @@ fn check_substores(rep: &mut Report, dir: &std::path::Path, i: usize) {
     match load(&p) {
         Ok(Ok(st2)) => {
             let d2 = describe(&st2);
-            if d2 != d1 { let (x, y) = first_diff(&d1, &d2); rep.fail("oracle", "C05/substores/reload-differs", ctx.clone(), &x, &y); }
+            if d2 != d1 {
+                let (x, y) = first_diff(&d1, &d2);
+                let (mut s1, mut s2) = (d1.clone(), d2.clone());
+                s1.sort(); s2.sort();
+                // the same items in another order: the writer names the sub-stores before the store's own items, whatever came first
+                let sig = if s1 == s2 && i % 4 == 3 { "C05/substores/own-items-first-come-back-after-the-substores" } else { "C05/substores/reload-differs" };
+                rep.fail("oracle", sig, ctx.clone(), &x, &y);
+            }
             if let Ok(Ok(())) = guarded(std::panic::AssertUnwindSafe(|| st2.save())) {
                 let files2 = read_all(&sub);
                 if files2 != files1 { let a: Vec<String> = files1.iter().flat_map(|f| f.1.lines().map(|l| format!("{}: {}", f.0, l)).collect::<Vec<_>>()).collect(); let b: Vec<String> = files2.iter().flat_map(|f| f.1.lines().map(|l| format!("{}: {}", f.0, l)).collect::<Vec<_>>()).collect(); let (x, y) = first_diff(&a, &b); rep.fail("oracle", "C05/substores/second-write-differs", ctx.clone(), &x, &y); }
